@@ -21,6 +21,11 @@ RULE = ("operation histories over {get, slice, iter, append, extend, insert, pop
         "a rejected operation; distinct = distinct JSON case (class, start, op list). Histories come from a Hypothesis "
         "RuleBasedStateMachine (sub-check 'machine': one rule per operation, oracle after every step - each prefix counts "
         "as one evaluation), from a list-of-operations strategy, and from exhaustive enumeration of short sequences.")
+RULE = RULE + (" Start states also include objects built from tuples / lists of arrays with check=False / check=True, from vectorised "
+               "constructors (SE3(Nx3), Rx(list), SO2(list)) and from quaternion row arrays, with a sibling object built from the "
+               "same container that must stay unchanged; indices are handed over as Python ints or as NumPy integers (idxtype); "
+               "iter_mutate keeps an iterator alive across a mutation; the arguments of append / extend are re-compared after "
+               "every later operation.")
 ASSUMPTIONS = [
     "elements are distinct valid values generated per class from integer tags (no library constructor involved)",
     "UnitQuaternion elements compared to 1e-12 (constructor re-normalises), all others bit-exact",
